@@ -245,6 +245,9 @@ class CEmitter:
             body.append("printf(\" \");")
             body += self.print_stmts("a%d" % i, a)
         body.append("printf(\"\\n\");")
+        for i, a in enumerate(t[1]):
+            if a[0] == "obox":
+                body.append("%s_destroy(a%d);" % (a[1], i))          # given for good: the callback is the owner now
         if t[2] != ("unit",):
             body.append("switch (j) {")
             for j, (_, cret) in enumerate(v["inv"]):
@@ -284,6 +287,9 @@ class CEmitter:
                 body.append("printf(\" \");")
                 body += self.print_stmts("a%d" % i, a)
             body.append("printf(\"\\n\");")
+            for i, a in enumerate(margs):
+                if a[0] == "obox":
+                    body.append("%s_destroy(a%d);" % (a[1], i))
             if mret != ("unit",):
                 body.append("switch (j) {")
                 for j, (imi, _, cret) in enumerate(v["inv"]):
